@@ -170,7 +170,10 @@ def c_version(v):
 def c_res(x, printer):
     if isinstance(x, Exception):
         return '(Err %s)' % C.c_err(C.exc_class(x))
-    return '(Ok %s)' % printer(x)
+    try:
+        return '(Ok %s)' % printer(x)
+    except Exception:  # noqa - an observation outside the model's vocabulary: force a mismatch
+        return '(Err OutOfFuel)'
 
 
 def c_header(h):
